@@ -13,6 +13,7 @@ REPO = os.environ.get("VERIF_REPO", "/repo")
 GUARD = "--cfg varlink_rust_verif"
 
 RUST_ENGINE = {"C01", "C02", "C03", "C04", "C05", "C06", "C07", "C10", "C11", "C12", "C13", "C14", "C15", "C17"}
+NEEDS_REPO_BINS = {"C10": ["varlink-cli"]}
 PY_ENGINE = {"C08": "c08", "C09": "c09", "C16": "c16", "C18": "c18", "C19": "c19", "C20": "c20"}
 
 
@@ -122,6 +123,13 @@ def dispatch(pid, tier, replay):
         if replay:
             cmd += ["--replay", replay]
         env = base_env()
+        if pid in NEEDS_REPO_BINS and not replay:
+            d = build_repo_bins("debug", NEEDS_REPO_BINS[pid])
+            if d is None:
+                print("INCONCLUSIVE property=%s reason=repository binaries failed to build" % pid)
+                return 2
+            env["VERIF_REPO_BIN"] = d
+        env["VERIF_REPO"] = REPO
         rc = subprocess.call(cmd, env=env)
         if rc not in (0, 1, 2):
             # the engine itself died (abort/panic): not a verdict
